@@ -336,7 +336,7 @@ pub fn c03_strategy(max_len: usize, transports: BoxedStrategy<Transport>) -> Box
         .prop_map(|((framing, also_cl, headers, mask, version, followers, transport, split), read, finish)| {
             let upgrade = matches!(framing, Framing::Upgrade { .. });
             let followers = if upgrade { 0 } else { followers };
-            let conn = if upgrade { Some("upgrade".to_string()) } else { keepalive_for(version, followers == 0) };
+            let conn = if upgrade { Some(["upgrade", "Upgrade", "keep-alive, Upgrade", "Upgrade, keep-alive", "upgrade,keep-alive", "UPGRADE", "foo , upgrade"][(mask as usize >> 20) % 7].to_string()) } else { keepalive_for(version, followers == 0) };
             let mut conv = Conversation::default();
             conv.reqs.push(build_req(0, "POST".into(), "/body".into(), version, headers, framing, also_cl, mask as usize, mask, conn, false));
             for i in 0..followers {
@@ -403,7 +403,7 @@ pub fn finish_no_panic() -> BoxedStrategy<Finish> {
     prop_oneof![
         4 => small_respond(),
         2 => Just(Finish::Drop),
-        2 => (0usize..3000, proptest::collection::vec(0u16..1024, 0..4), any::<u8>()).prop_map(|(body_len, cuts, flush_mask)| Finish::Writer { body_len, cuts, flush_mask }),
+        2 => (0usize..3000, proptest::collection::vec(0u16..1024, 0..4), any::<u8>()).prop_map(|(body_len, cuts, flush_mask)| Finish::Writer { body_len, cuts, flush_mask, zero_writes: flush_mask & 0x80 != 0 }),
     ]
     .boxed()
 }
@@ -420,7 +420,10 @@ pub fn c09_strategy(max_len: usize, transports: BoxedStrategy<Transport>) -> Box
             let mut id = 0u32;
             for ((framing, read, finish, headers, mask), with_body) in items {
                 if with_body || id == 0 {
-                    conv.reqs.push(build_req(id, "POST".into(), "/b".into(), "HTTP/1.1", headers, framing, None, mask as usize, mask, None, false));
+                    // HTTP/1.0 clients with keep-alive reuse the connection too
+                    let v10 = !matches!(framing, Framing::Chunked { .. }) && (mask >> 24) % 4 == 0;
+                    let (version, conn) = if v10 { ("HTTP/1.0", Some(["keep-alive", "Keep-Alive"][(mask as usize >> 26) % 2].to_string())) } else { ("HTTP/1.1", None) };
+                    conv.reqs.push(build_req(id, "POST".into(), "/b".into(), version, headers, framing, None, mask as usize, mask, conn, false));
                     progs.push(Prog { read, finish });
                 } else {
                     conv.reqs.push(sentinel(id));
@@ -465,14 +468,15 @@ pub fn c10_malform(n_headers: usize) -> BoxedStrategy<Malform> {
 }
 
 pub fn c10_strategy(transports: BoxedStrategy<Transport>) -> BoxedStrategy<ConvCase> {
-    (1usize..=4, any::<proptest::sample::Index>(), headers_strategy(3), transports, proptest::collection::vec(small_respond(), 4))
-        .prop_flat_map(|(n, at, headers, transport, fins)| {
+    (1usize..=4, any::<proptest::sample::Index>(), headers_strategy(3), transports, proptest::collection::vec(small_respond(), 4), proptest::option::weighted(0.3, prop_oneof![Just(1usize), Just(600usize), Just(1024usize), Just(1025usize), Just(5000usize)]))
+        .prop_flat_map(|(n, at, headers, transport, fins, withheld)| {
             let at = at.index(n);
             let nh = headers.len() + 1;
-            (Just((n, at, headers, transport, fins)), c10_malform(nh))
+            (Just((n, at, headers, transport, fins, withheld)), c10_malform(nh))
         })
-        .prop_map(|((n, at, headers, transport, fins), mal)| {
+        .prop_map(|((n, at, headers, transport, fins, withheld), mal)| {
             let mut conv = Conversation::default();
+            let mut withheld_at: Option<usize> = None;
             for i in 0..n {
                 let mut r = ReqSpec::simple(i as u32);
                 if i == at {
@@ -485,6 +489,17 @@ pub fn c10_strategy(transports: BoxedStrategy<Transport>) -> BoxedStrategy<ConvC
                         Malform::NonAscii { place: Place::HeaderValue(k), byte } => Malform::NonAscii { place: Place::HeaderValue(k % nh), byte },
                         m => m,
                     };
+                    // a request with a version above 1.1 may carry an expectation and a body the
+                    // client withholds until it has an answer: the 505 must not wait for that body
+                    if let (Malform::VersionToken(v), Some(blen)) = (&mal, withheld) {
+                        if v == "HTTP/2.0" || v == "HTTP/3.0" {
+                            r.method = "POST".into();
+                            r.headers.push(Hdr::new("Expect", "100-continue"));
+                            r.headers.push(Hdr::new("Content-Length", &blen.to_string()));
+                            r.framing = Framing::Length { n: blen };
+                            withheld_at = Some(i);
+                        }
+                    }
                     r.mal = Some(mal);
                 }
                 conv.reqs.push(r);
@@ -493,6 +508,13 @@ pub fn c10_strategy(transports: BoxedStrategy<Transport>) -> BoxedStrategy<ConvC
             let case0 = ConvCase { conv, progs, script: vec![], transport };
             let exp = crate::conv::expect(&case0);
             let total = total_len(&case0.conv);
+            if let Some(i) = withheld_at {
+                let rd = render(&case0.conv);
+                let cut = rd.ranges[i].head_end;
+                // responses up to and including the 505 arrive while the body is still withheld
+                let script = vec![Step::Send { from: 0, to: cut }, Step::AwaitFinals(i + 1), Step::Send { from: cut, to: total }, Step::AwaitFinals(exp.msgs.len()), Step::HalfClose];
+                return ConvCase { script, ..case0 };
+            }
             // the client does not help: it neither closes nor sends more until every expected
             // response is there; then it waits for the close the model predicts (or half-closes)
             let mut script = vec![Step::Send { from: 0, to: total }, Step::AwaitFinals(exp.msgs.len())];
@@ -508,7 +530,7 @@ pub fn c10_strategy(transports: BoxedStrategy<Transport>) -> BoxedStrategy<ConvC
 pub fn c12_strategy(transports: BoxedStrategy<Transport>) -> BoxedStrategy<ConvCase> {
     let conn11 = prop_oneof![
         6 => Just(None),
-        3 => proptest::sample::select(vec!["close", "Close", "CLOSE", "upgrade", "Upgrade", "keep-alive, close", "close, TE", "TE, close", "foo,close"]).prop_map(|s| Some(s.to_string())),
+        3 => proptest::sample::select(vec!["close", "Close", "CLOSE", "upgrade", "Upgrade", "keep-alive, close", "close, TE", "TE, close", "foo,close", "keep-alive, Upgrade", "Upgrade, keep-alive", "foo , close", "close ,foo", "TE,  upgrade"]).prop_map(|s| Some(s.to_string())),
         3 => proptest::sample::select(vec!["keep-alive", "Keep-Alive", "TE", "foo", "foo, bar", "keep-alive, TE"]).prop_map(|s| Some(s.to_string())),
     ];
     let conn10 = prop_oneof![
@@ -708,7 +730,7 @@ pub fn c06_strategy(transports: BoxedStrategy<Transport>, with_panic: bool) -> B
     let finish = move || {
         prop_oneof![
             4 => respond_strategy(),
-            2 => (0usize..3000, proptest::collection::vec(0u16..1024, 0..4), any::<u8>()).prop_map(|(body_len, cuts, flush_mask)| Finish::Writer { body_len, cuts, flush_mask }),
+            2 => (0usize..3000, proptest::collection::vec(0u16..1024, 0..4), any::<u8>()).prop_map(|(body_len, cuts, flush_mask)| Finish::Writer { body_len, cuts, flush_mask, zero_writes: flush_mask & 0x80 != 0 }),
             3 => Just(Finish::Drop),
             if with_panic { 2 } else { 0 } => Just(Finish::Panic),
         ]
@@ -808,6 +830,27 @@ pub fn c04_conn_strategy(transports: BoxedStrategy<Transport>) -> BoxedStrategy<
                 let conn = keepalive_for(version, last);
                 conv.reqs.push(build_req(i as u32, if head { "HEAD".into() } else { "GET".into() }, String::new(), version, hs, Framing::None, None, 0, 0, conn, false));
                 progs.push(Prog { read: ReadPlan::None, finish: Finish::Respond { status, body_len, declared, threshold } });
+            }
+            let total = total_len(&conv);
+            ConvCase { conv, progs, script: vec![Step::Send { from: 0, to: total }, Step::HalfClose], transport }
+        })
+        .boxed()
+}
+
+/// C06, "not answered twice": a respond() whose body source fails half-way
+pub fn c06_failing_strategy(transports: BoxedStrategy<Transport>) -> BoxedStrategy<ConvCase> {
+    (prop_oneof![Just(10usize), Just(100usize), Just(2000usize), Just(40000usize)], 0usize..60, any::<bool>(), 0usize..3, transports, proptest::bool::weighted(0.3))
+        .prop_map(|(declared_len, fail_after, panic, followers, transport, head)| {
+            let mut conv = Conversation::default();
+            let mut r = ReqSpec::simple(0);
+            if head {
+                r.method = "HEAD".into();
+            }
+            conv.reqs.push(r);
+            let mut progs = vec![Prog { read: ReadPlan::None, finish: Finish::RespondFailing { declared_len, fail_after: fail_after.min(declared_len.saturating_sub(1)), panic } }];
+            for i in 0..followers {
+                conv.reqs.push(sentinel(1 + i as u32));
+                progs.push(Prog::ok());
             }
             let total = total_len(&conv);
             ConvCase { conv, progs, script: vec![Step::Send { from: 0, to: total }, Step::HalfClose], transport }
